@@ -64,6 +64,17 @@ reg(Spec("C02", "c02_decode.cpp", needs=("shim", "optable"), custom="exhaustive"
                       "instructions ending in Unimplemented / deliberate ASSERT make no length claim",
                       "the test generator's view of the form is checked through its vectors in C01(b) (pc advance of every vector)"]))
 
+reg(Spec("C05", "c05_text.cpp", needs=("shim", "optable", "makedsp1"), custom="exhaustive",
+         rule="complete enumeration of all 65536 first words (worker i takes w % 16 == i): RT every printable word: its token list "
+              "assembles (Valid / ValidWithExpansion == NeedExpansion) to an opcode that prints identically for 8 (quick) / 64 "
+              "(thorough) second words and, when it is a different opcode, executes identically on 8 / 64 generated states; GRP all "
+              "words sharing a text differ only in declared Unused<> bits; JOIN Do() == tokens joined by 4 spaces (with generated "
+              "ar/arp annotation); CB the C binding for every buffer size 0..len+4 between 512-byte canary zones and in an exact-size "
+              "heap block (1/4 of the words in quick, all in thorough); FW the four firmware sources through makedsp1's own main vs "
+              "cdc.bin, and the binary disassembled along the source. Non-trivial = printable word with operands; distinct = the word.",
+         assumptions=["harness objects of the C05 executable that include decoder.h need a gen_recorder.h (build dependency only)",
+                      "'$xxxx' in firmware sources marks the second word exactly where its four hex digits are printed (as makedsp1 assumes)"]))
+
 # Properties not (yet) claimed. Kept current by hand; every id in properties.jsonl is either in SPECS or here.
 _PENDING = "check not built yet in this round; planned with property-based testing per DESIGN.md"
 NOT_APPLICABLE = [{"property_id": "C%02d" % i, "reason": _PENDING} for i in range(1, 21) if "C%02d" % i not in SPECS]
